@@ -73,9 +73,7 @@ def check(chk):
     r143(chk, m)
     from . import c13, c15, c18
     c13.r136(chk, m)
-    fn = m.func('plasTeX.Filenames', 'Filenames._newFilename')
-    for name, loop in c15.find_phases(fn):
-        c15.phase_rules(chk, m, fn, name, loop)
+    c15.generator_rules(chk, m, rule_id='R14.5')
     c18.r182_groups(chk, m)
     from . import shared
     shared.paux_rules(chk, m, 'R14.4')
